@@ -114,8 +114,8 @@ func init() {
 
 		cfg := cfgSpec{Protos: []string{ls.Pairing.Target}, Codecs: []string{ls.Pairing.TCodec}, Comps: []string{"gzip"}, L: ls.L}
 		scn := &scenario{SID: ls.SID, Fam: "limits", Cfg: cfg,
-			Cl: clientSpec{Form: ls.Pairing.Form, Method: ls.Pairing.Method, Codec: ls.Pairing.Codec, Frames: []frameSpec{{M: 1}}},
-			Hd: handlerSpec{Frames: []frameSpec{{M: 2}}, ErrAt: 1, End: endSpec{How: "normal"}},
+			Cl:   clientSpec{Form: ls.Pairing.Form, Method: ls.Pairing.Method, Codec: ls.Pairing.Codec, Frames: []frameSpec{{M: 1}}},
+			Hd:   handlerSpec{Frames: []frameSpec{{M: 2}}, ErrAt: 1, End: endSpec{How: "normal"}},
 			Msgs: map[string]string{"1": "ascii", "2": "ascii"}}
 		if ls.Pairing.Method == "Bidi" {
 			scn.Cl.Major = 2
